@@ -1,7 +1,144 @@
 import PprofVerif.Base.Tok
-/- Driver operations for C19. -/
+import PprofVerif.Model.Settings
+import PprofVerif.Model.SettingsFS
+import PprofVerif.Gen.ConfigFields
+/- Driver operations for C19 (saved configurations).  Token forms:
+   val     = `b 0|1` | `i <int>` | `f x<hex>` | `s x<hex>`
+   config  = list of val in the order of the regenerated field table
+   query   = list of (x<key> x<value>)
+   obj     = list of (x<name> val);  doc = list of (x<name> obj);  file = opt doc
+   floats  = list of (x<text> opt x<canonical>)   -- graph of strconv.ParseFloat∘fmt.Sprint on the texts of the case
+   req     = `save query` | `delete x<name>`
+   fsop    = `open fd x<name> creat trunc excl` | `write fd x<data>` | `fsync fd` | `close fd`
+           | `rename x<src> x<dst>` | `unlink x<name>` -/
 namespace Driver.C19
-open PV
+open PV PV.Settings
 
-def ops : List (String × (List String → String)) := []
+def table : List FieldSpec := PV.Gen.ConfigFields.fields
+
+namespace R
+def val : Rd Val := do
+  let t ← Rd.tok
+  match t with
+  | "b" => do let b ← Rd.bool; pure (.b b)
+  | "i" => do let n ← Rd.int; pure (.i n)
+  | "f" => do let s ← Rd.str; pure (.f s)
+  | "s" => do let s ← Rd.str; pure (.s s)
+  | _ => failure
+def config : Rd Config := Rd.list val
+def pair {α β} (a : Rd α) (b : Rd β) : Rd (α × β) := do let x ← a; let y ← b; pure (x, y)
+def query : Rd Query := Rd.list (pair Rd.str Rd.str)
+def obj : Rd Obj := Rd.list (pair Rd.str val)
+def doc : Rd FileObj := Rd.list (pair Rd.str obj)
+def file : Rd (Option FileObj) := Rd.opt doc
+def floats : Rd FloatOps := do
+  let tab ← Rd.list (pair Rd.str (Rd.opt Rd.str))
+  pure { parse := fun s => match tab.lookup s with | some r => r | none => none }
+def req : Rd Req := do
+  let t ← Rd.tok
+  match t with
+  | "save" => do let q ← query; pure (.save q)
+  | "delete" => do let n ← Rd.str; pure (.delete n)
+  | _ => failure
+def fsop : Rd FS.Op := do
+  let t ← Rd.tok
+  match t with
+  | "open" => do
+    let fd ← Rd.nat; let n ← Rd.str; let c ← Rd.bool; let tr ← Rd.bool; let e ← Rd.bool
+    pure (.open fd n c tr e)
+  | "write" => do let fd ← Rd.nat; let d ← Rd.str; pure (.write fd d)
+  | "fsync" => do let fd ← Rd.nat; pure (.fsync fd)
+  | "close" => do let fd ← Rd.nat; pure (.close fd)
+  | "rename" => do let a ← Rd.str; let b ← Rd.str; pure (.rename a b)
+  | "unlink" => do let a ← Rd.str; pure (.unlink a)
+  | _ => failure
+end R
+
+namespace W
+def val : Val → Wr
+  | .b v => "b" :: Wr.bool v
+  | .i n => "i" :: Wr.int n
+  | .f t => "f" :: Wr.str t
+  | .s s => "s" :: Wr.str s
+def config (c : Config) : Wr := Wr.list val c
+def query (q : Query) : Wr := Wr.list (fun p => Wr.str p.1 ++ Wr.str p.2) q
+def obj (o : Obj) : Wr := Wr.list (fun p => Wr.str p.1 ++ val p.2) o
+def doc (d : FileObj) : Wr := Wr.list (fun p => Wr.str p.1 ++ obj p.2) d
+def file (f : Option FileObj) : Wr := Wr.opt doc f
+def kind : Kind → String
+  | .bool => "bool" | .int => "int" | .float => "float" | .string => "string" | .choice => "choice"
+def field (f : FieldSpec) : Wr :=
+  [f.goName] ++ Wr.str f.name ++ Wr.bool f.saved ++ Wr.bool f.omitempty ++ Wr.str f.urlparam ++ [kind f.kind]
+    ++ Wr.list Wr.str f.choices ++ val f.default
+end W
+
+/-- `configMenu`: the default configuration first, then the saved ones (none if the file does not
+load); each entry with the query `makeURL` produces from the page's query. -/
+def menu (cur : Config) (file : Option FileObj) (q : Query) : List (Str × Query × Bool) :=
+  let user : Settings := match (match file with | none => some [] | some d => decS table cur d) with
+    | some s => s
+    | none => []
+  ((Str.ofString "Default", defaults table) :: user).map (fun p =>
+    let r := makeURL table p.2 q
+    (p.1, r.1, r.2))
+
+/-- all orders of a list (small inputs only). -/
+def perms {α} : List α → List (List α)
+  | [] => [[]]
+  | x :: r => (perms r).flatMap (fun p => (List.range (p.length + 1)).map (fun k => p.take k ++ x :: p.drop k))
+
+def serialResult (fo : FloatOps) (cur : Config) (file : Option FileObj) (rs : List Req) : Option FileObj :=
+  rs.foldl (fun f r => (handleObj fo table cur f r).1) file
+
+def ops : List (String × (List String → String)) := [
+  ("config.table", fun _ =>
+    Wr.render (Wr.list W.field table ++ Wr.list (fun s => [s]) PV.Gen.ConfigFields.transient)),
+  ("config.makeurl", fun ts =>
+    match Rd.run (R.pair R.config R.query) ts with
+    | none => "bad-op"
+    | some (c, q) => let r := makeURL table c q; Wr.render (W.query r.1 ++ Wr.bool r.2)),
+  ("config.applyurl", fun ts =>
+    match Rd.run (R.pair R.floats (R.pair R.config R.query)) ts with
+    | none => "bad-op"
+    | some (fo, c, q) => match applyURL fo table c q with
+      | none => "err"
+      | some c' => "ok " ++ Wr.render (W.config c')),
+  ("settings.handle", fun ts =>
+    match Rd.run (R.pair R.floats (R.pair R.config (R.pair R.file R.req))) ts with
+    | none => "bad-op"
+    | some (fo, cur, f, r) =>
+      let res := handleObj fo table cur f r
+      Wr.render (Wr.bool res.2 ++ W.file res.1)),
+  ("settings.menu", fun ts =>
+    match Rd.run (R.pair R.config (R.pair R.file R.query)) ts with
+    | none => "bad-op"
+    | some (cur, f, q) =>
+      Wr.render (Wr.list (fun e => Wr.str e.1 ++ W.query e.2.1 ++ Wr.bool e.2.2) (menu cur f q))),
+  ("settings.load", fun ts =>
+    -- what a reload shows: each stored object decoded (saved fields intact, transient fields current)
+    match Rd.run (R.pair R.config R.doc) ts with
+    | none => "bad-op"
+    | some (cur, d) => match decS table cur d with
+      | none => "err"
+      | some s => "ok " ++ Wr.render (Wr.list (fun p => Wr.str p.1 ++ W.config p.2) s)),
+  ("settings.serial", fun ts =>
+    -- is `final` the result of SOME serial order of the requests?
+    match Rd.run (R.pair R.floats (R.pair R.config (R.pair R.file (R.pair (Rd.list R.req) R.file)))) ts with
+    | none => "bad-op"
+    | some (fo, cur, f0, rs, final) =>
+      if rs.length > 6 then "too-many"
+      else
+        let idx := List.range rs.length
+        match (perms idx).find? (fun p => serialResult fo cur f0 (p.filterMap (rs[·]?)) == final) with
+        | some p => "yes " ++ Wr.render (Wr.list Wr.nat p)
+        | none => "no"),
+  ("fs.accepts", fun ts =>
+    match Rd.run (R.pair Rd.str (R.pair (Rd.opt Rd.str) (R.pair Rd.str (R.pair Rd.bool
+            (R.pair (Rd.list (R.pair Rd.str Rd.str)) (Rd.list R.fsop)))))) ts with
+    | none => "bad-op"
+    | some (f, old, new, mayFail, files, os) =>
+      match FS.accepts f old new mayFail (FS.ofFiles files) os with
+      | none => "atomic"
+      | some (k, why) => s!"bad {k} {why}")
+]
 end Driver.C19
